@@ -183,6 +183,23 @@ def decorrelated_jitter(base_s: float = 0.25, max_s: float = 30.0) -> StrategyFn
     return f
 
 
+def _exp_cap(base_s: float, factor: float, attempt: int, max_s: float) -> float:
+    """
+    min(max_s, base_s * factor**attempt) without overflowing for large attempts.
+
+    The exponent is applied in bounded steps and growth stops once max_s is
+    reached, so factor**attempt is never evaluated directly (2.0**1024 raises
+    OverflowError).
+    """
+    cap = base_s
+    remaining = attempt
+    while remaining > 0 and 0.0 < cap < max_s:
+        step = min(remaining, 256)
+        cap *= factor**step
+        remaining -= step
+    return min(max_s, cap)
+
+
 def equal_jitter(base_s: float = 0.25, max_s: float = 30.0) -> StrategyFn:
     """
     Equal-jitter exponential backoff.
@@ -192,7 +209,7 @@ def equal_jitter(base_s: float = 0.25, max_s: float = 30.0) -> StrategyFn:
     """
 
     def f(attempt: int, klass: ErrorClass, prev_sleep: float | None) -> float:
-        cap = min(max_s, base_s * (2.0**attempt))
+        cap = _exp_cap(base_s, 2.0, attempt, max_s)
         return cap / 2.0 + random.uniform(0.0, cap / 2.0)
 
     return f
@@ -207,7 +224,7 @@ def token_backoff(base_s: float = 0.25, max_s: float = 20.0) -> StrategyFn:
     """
 
     def f(attempt: int, klass: ErrorClass, prev_sleep: float | None) -> float:
-        cap = min(max_s, base_s * (1.5**attempt))
+        cap = _exp_cap(base_s, 1.5, attempt, max_s)
         return random.uniform(cap / 2.0, cap)
 
     return f
